@@ -30,6 +30,18 @@ def run(ctx):
     A.r18_4_replace_not_mutate(ctx)
     H.r15_4_no_node_twice(ctx, 'R18.5')
     H.r18_6_set_value_copies(ctx)
+    from . import c09 as C9
+    r = ctx.rule('R18.7', 'aliases are composed by PyYAML itself (the alias is the anchored node object; a node that contains itself is '
+                          'a cycle the pre-check sees): yatiml does not override the composer', floor=1)
+    n_over = C9.overrides_are_delegations(ctx, r, ctx.P.cls('yatiml.loader:Loader'),
+                                          ('compose_node', 'compose_document', 'compose_scalar_node', 'compose_sequence_node',
+                                           'compose_mapping_node', 'get_single_data', 'construct_document'),
+                                          'aliases are no longer the anchored node itself (PyYAML registers an anchor before its children are '
+                                          'composed: copying at an alias copies the half-built ancestor, so `&a [1, *a]` loads as [1, [1]] '
+                                          'instead of being rejected)')
+    if n_over == 0:
+        r.ok('no yatiml class in Loader\'s MRO overrides a compose_* method')
+    r.done()
     src = __import__('ast').unparse(ctx.P.func('yaml.composer:Composer.compose_node').node)
     if 'return self.anchors[anchor]' not in src:
         from ..model import AnalysisError
